@@ -52,8 +52,9 @@ Definition clear_err (b : breader) : breader :=
 Definition set_buf (b : breader) (buf : str) : breader :=
   {| b_cap := b_cap b; b_buf := buf; b_src := b_src b; b_err := b_err b |}.
 
-(* Peek(n): (bytes, error kind, reader).  Err 77 = fuel exhausted (excluded by
-   Proofs.Tunnel.peek_loop_fuel: every fill adds a byte or sets the error). *)
+(* Peek(n): (bytes, error kind, reader).  Err 77 = fuel exhausted: an explicit error, never a
+   normal-looking value (every fill adds a byte or sets the error, so cap+1 rounds suffice;
+   the correspondence check counts an Err 77 as a disagreement). *)
 Definition peek (b : breader) (n : nat) : outcome (str * N * breader) :=
   match peek_loop (S (b_cap b)) b n with
   | None => Err 77
